@@ -77,6 +77,31 @@ def run(ctx):
     ctx.lean(["Crng.Props.C19"], ["Crng.Props.C19.accepted_strictly_increasing", "Crng.Props.C19.accept_iff_newer", "Crng.Props.C19.newer_positive_accepted",
                                   "Crng.Props.C19.not_newer_rejected", "Crng.Props.C19.collision_counterexample"],
              ties=["Crng.Tie.C19", common.CODE_TABLE, common.CODE_ORDERED])
+    # two names with the same FNV-1a 64 digest share one entry of validate.Ordered's map (the hypothesis `hinj` of the theorems is
+    # there because of this; `collision_counterexample` shows it is needed): a concrete pair, run against the real table
+    col = []
+    for a, b in ((b"8yn0iYCKYHlIj4-BwPqk", b"GReLUrM4wMqfg9yzV3KQ"), (b"gMPflVXtwGDXbIhP73TX", b"LtHf1prlU1bCeYZEdqWf")):
+        col.append(("fnv%d" % len(col), ["lvl none none 1", "route cap - - - - - -", "build",
+                                           "in %s %d %d" % (tg.hx(a + b" 1 1500000100"), gen.fbits("1"), 1500000100),
+                                           "in %s %d %d" % (tg.hx(b + b" 1 1500000050"), gen.fbits("1"), 1500000050), "bad"]))
+
+    known = []
+
+    def col_monitor(lines, out):
+        """the known finding: the second name of a colliding pair is rejected as out-of-order although nothing was accepted for it
+        before (it is compared with the first name's timestamp). Anything else the monitor sees is reported as usual."""
+        r = monitor(lines, out)
+        if r is None:
+            return "fnv64a-collision: the colliding pair no longer interferes (remove the known finding C19-fnv-collision)"
+        ins = [bytes.fromhex(l.split()[1]).split()[0] for l in lines if l.startswith("in ")]
+        if r.startswith("point ") and r.endswith("was rejected") and repr(ins[1])[1:] in r and "so far: 0" in r:
+            known.append(ins[1])
+            return None
+        return "fnv64a-collision: " + r
+    ctx.stream("ordered-hash-collision", "table", col, model=False, monitor=col_monitor, shrink=False)
+    if known:
+        ctx.known_hit += [k for k in ctx.known if k["id"] == "C19-fnv-collision" and k not in ctx.known_hit]
+        ctx.notes.append("names with equal FNV-1a 64 digests share an entry of the order validator: %d pairs run (known finding C19-fnv-collision)" % len(known))
     ctx.stream("table-order", "table", cases(ctx.rng("c19"), ctx.scale(150, 3000)), classify=classify, spec_exact=True, monitor=monitor,
                nontrivial=lambda l, o: tuple(x for x in o if "ooo=1" in x) and tuple(o) or None,
                removable=lambda l: l.startswith(("in ", "inm ", "aggin ")))
